@@ -75,4 +75,26 @@ CLAIMED["C08"] = {
           "pinned tree had ({nullable:false, const:false, ...}) came from the ordered map's Filter and is fixed by fc34ee4.",
   "technique": "Coq computed theorems over rule tables translated from source + API-level enumeration of rule/kind combinations and exhaustive/sampled permutation runs (partial)",
 }
+CLAIMED["C09"] = {
+  "text": "Recursion half - full proof on a model of the recursion checker (depth-first over required properties and type shortcuts, visited = names on the current path with undo, "
+          "an or-list fails only if every member fails, unknown names pass): C09_check_iff_inhabited (the verdict is 'no error' iff the root has a finite inhabitant, the least-fixpoint "
+          "spec Inhabited), C09_reject_sound, C09_accept_sound, C09_check_terminates (the fuel bound S(size + (|g|+1)(env_size+1)) is never hit), C09_check_fuel_mono; axiom-free, any graph size. "
+          "Tie: generated graphs over <= 6 types with required/optional references, array items, or-shortcuts, nested objects, additionalProperties types, alias/union types and missing "
+          "types + all graphs on 2 types over 6 edge forms, in both registration styles; Check code vs the extracted model and vs inhabited_b. PARTIAL for the rest: 1302-iff-missing, "
+          "UsedUserTypes = names of the root text, and termination of Check/Validate(Example())/Example on accepted graphs are checked by these runs (crash-isolated, 10 s alarm), not proved; "
+          "allOf-parent and key-shortcut edges are not generated yet.",
+  "note": "Trusted: Coq kernel; extraction; the abstraction of a type's schema to TLeaf/TObj/TRef done by the python printer (lib/check_c09.py) - the model sees what the generator says the "
+          "checker sees. Known finding C09-root-only-registration-cycle: with types added to the root only, the checker resolves nested names in an empty list; silenced only when the "
+          "library's verdict equals a python transcription of exactly that pinned behaviour.",
+  "technique": "Coq proof (path-DFS over an and-or type graph decides least-fixpoint inhabitation; termination within fuel) + generated-graph correspondence; sampled checks for link resolution/used types/termination",
+}
+CLAIMED["C04"] = {
+  "text": "PARTIAL. Proved (Shape model, rule-free fragment, any depth): C04_self_valid_all / C04_self_valid - the validator model accepts the schema's own example under both key-optionality "
+          "configurations (keys distinct, as the loader enforces with error 402; C04_example_dup_keys_refuted shows the hypothesis is needed), C04_example_has_shape. For schemas with rules "
+          "the implication 'Check ok => Validate(example) ok' and its converse 'a violated rule => Check fails at the offending value' are decided by generated cases through the API: schemas "
+          "to depth 4 whose nodes carry satisfied rule sets (min/max/exclusive, precision+decimal, min/maxLength, regex, enum, declared type, five formats, min/maxItems, nullable, "
+          "optional) and every single-rule corruption at every nesting position, with the reported position compared to the byte offset of the corrupted value.",
+  "note": "Trusted: Coq kernel; the python generator/printer and its offset computation. Rule semantics beyond the numeric ones (C10) are not modelled in Coq; that part is differential testing.",
+  "technique": "Coq proof of self-validity on the rule-free validator model + generated satisfied/corrupted rule schemas through Check/Validate with position oracle (partial)",
+}
 NOT_APPLICABLE = {}
